@@ -319,10 +319,11 @@ func main() {
 	if scale < 1 {
 		scale = 1
 	}
-	accEvery, rejEvery, perShard := 2*scale, 12*scale, 400
+	accEvery, rejEvery, perShard, ccShard, codecBudget := 2*scale, 12*scale, 400, 1200, 26000
 	if a.Tier == "thorough" {
-		perShard = 1500
+		perShard, ccShard, codecBudget = 3000, 2500, 45000
 	}
+	sparseFrom := 1 << 30 // inputs from this index on reach the model 1 in 10 (thorough: the 12-letter alphabet space)
 	cs := hx.NewCases(a.Out, "From V.C08 Require Import Model Harness.\nFrom V.Base Require Import Hex.", "string * dobs * sobs * cobs", "check", perShard)
 	ts := hx.NewCasesNamed(a.Out, "typed", "From V.C08 Require Import Model Typed Harness.\nFrom V.Base Require Import Hex.", "ty * string * option value", "check_typed", 1500)
 	// descriptors of every type the codec cases mention, printed from reflection
@@ -340,7 +341,7 @@ func main() {
 	for _, v := range rtVals(hx.NewRng(0)) {
 		gt.add(reflect.TypeOf(v))
 	}
-	cc := hx.NewCasesNamed(a.Out, "codec", "From V.C08 Require Import Model Typed Codec Desc Harness.\nFrom V.Base Require Import Hex.\n"+gt.prelude(), "ccase", "check_codec", 1200)
+	cc := hx.NewCasesNamed(a.Out, "codec", "From V.C08 Require Import Model Typed Codec Desc Harness.\nFrom V.Base Require Import Hex.\n"+gt.prelude(), "ccase", "check_codec", ccShard)
 
 	// purity: type-cache first-use orders and failure histories, in fresh child processes
 	fresh := pureTier(a, rng.Fork(), res)
@@ -497,6 +498,7 @@ func main() {
 			}
 		}
 		alpha := []byte{0x00, 0x01, 0x7f, 0x80, 0x81, 0xb7, 0xb8, 0xc0, 0xc1, 0xc2, 0xf8, 0xff}
+		sparseFrom = len(inputs)
 		var rec func(pre []byte, d int)
 		rec = func(pre []byte, d int) {
 			if d == 0 {
@@ -512,7 +514,7 @@ func main() {
 		}
 		rec(nil, 5)
 		res.Exhaustive = true
-		res.Note("exhaustive: every byte string of length <= 2; every string of length 3..5 over {00,01,7f,80,81,b7,b8,c0,c1,c2,f8,ff}")
+		res.Note("exhaustive on the implementation (round trip, canonicity, totality, allocation): every byte string of length <= 2; every string of length 3..5 over {00,01,7f,80,81,b7,b8,c0,c1,c2,f8,ff}; the model is evaluated on all of the former and on every 10th of the latter")
 	}
 
 	var ms runtime.MemStats
@@ -568,7 +570,7 @@ func main() {
 		} else {
 			cob = fmt.Sprintf("COk %d", cnt)
 		}
-		if len(b) <= 3000 { // larger inputs are checked on the implementation only
+		if len(b) <= 3000 && (idx < sparseFrom || idx%10 == 0) { // larger inputs are checked on the implementation only
 			cs.Add(fmt.Sprintf("(%s, %s, %s, %s)", hx.CoqHex(b), dob, sob, cob), map[string]string{"input": hex.EncodeToString(b), "dec": dob, "split": sob, "count": cob})
 		}
 		nontrivial := len(b) > 0 && !(err != nil && len(b) >= 1 && errCode(err) != 6 && len(b) == 1)
@@ -592,7 +594,7 @@ func main() {
 					res.Violate("C08/panic:"+z.name, fmt.Sprint(pan), hex.EncodeToString(b))
 					continue
 				}
-				if h := idx + 7*len(z.name); len(b) <= 96 && ((err == nil && h%accEvery == 0) || (err != nil && h%rejEvery == 0)) {
+				if h := idx + 7*len(z.name); len(b) <= 96 && cc.Total() < codecBudget && ((err == nil && h%accEvery == 0) || (err != nil && h%rejEvery == 0)) {
 					obs := "None"
 					if err == nil {
 						obs = "Some (" + coqValue(reflect.ValueOf(tv).Elem()) + ")"
@@ -644,10 +646,14 @@ func main() {
 			}
 		}
 	}
+	genTier(a, rng.Fork(), res, cc, inputs)
+	sc := streamTier(a, rng.Fork(), res, inputs)
 	cs.Close()
 	ts.Close()
 	cc.Close()
-	res.ModelCases = cs.Total() + ts.Total() + cc.Total()
+	sc.Close()
+	res.Histogram["model-cases-stream"] = sc.Total()
+	res.ModelCases = cs.Total() + ts.Total() + cc.Total() + sc.Total()
 	res.Histogram["model-cases-typed"] = ts.Total()
 	res.Histogram["model-cases-codec"] = cc.Total()
 	res.Note("codec cases use descriptors printed from reflection for: " + gt.summary())
